@@ -1,5 +1,6 @@
 import RreModel.Proto
 import RreModel.C06.Spec
+import RreModel.C06.Ext
 /-
 Driver for C06 (formats: see harness/src/bin/c06.rs).
   drv_c06 model   : case        ↦ observation predicted by the model
@@ -14,18 +15,23 @@ def parseVal (s : String) : Option Val :=
   else if s.startsWith "s" then (s.drop 1).toString.toNat?.map .str
   else if s.startsWith "h" then (s.drop 1).toString.toInt?.map .flt     -- h<2·x>: the float x (an exact half-integer)
   else if s = "n" then some .null
+  else if s.startsWith "w" then                                           -- w<letters a..c>: the string <letters>
+    ((s.drop 1).toString.toList.foldlM (fun (n : Nat) c =>
+      if c = 'a' then some (4 * n + 1) else if c = 'b' then some (4 * n + 2) else if c = 'c' then some (4 * n + 3) else none) 0).map
+      (fun n => Val.str (10000 + n))
   else none
 
 def showVal : Val → String
   | .int i => s!"i{i}"
   | .bool b => if b then "b1" else "b0"
-  | .str s => s!"s{s}"
+  | .str s => if s ≥ 10000 then "w" ++ String.ofList (strChars s) else s!"s{s}"
   | .flt t => s!"h{t}"
   | .null => "n"
 
 def parseCmp (s : String) : Option Cmp :=
   match s with
   | "eq" => some .eq | "ne" => some .ne | "lt" => some .lt | "le" => some .le | "gt" => some .gt | "ge" => some .ge
+  | "ct" => some .contains | "sw" => some .startsWith | "ew" => some .endsWith | "in" => some .isIn
   | _ => none
 
 def parseAlpha (s : String) : Option Node :=
@@ -38,6 +44,9 @@ def parseAlpha (s : String) : Option Node :=
         match (rhs.drop 1).toString.splitOn "_" with
         | [t, g] => do pure (Rhs.var (← t.toNat?) (← g.toNat?))
         | _ => none
+      else if rhs.startsWith "[" then                                     -- [v|v|…]: array literal
+        let inner := ((rhs.drop 1).toString.dropEnd 1).toString
+        if inner = "" then some (Rhs.arr []) else ((inner.splitOn "|").mapM parseVal).map Rhs.arr
       else (parseVal rhs).map Rhs.lit)
     pure (.alpha ty f op rhs)
   | _ => none
@@ -91,8 +100,11 @@ def parseAction (s : String) : Option Action :=
 def parseRule (i : Nat) (s : String) : Option Rule :=
   match s.splitOn ":" with
   | [ty, prio, nl, node, act] => do
-    pure { name := i, ty := (← ty.toNat?), node := (← parseNode node), prio := (← prio.toInt?), noLoop := nl == "1",
-           action := (← parseAction act) }
+    -- no-loop flag `1v` / `0v`: the harness builds the alpha nodes of this rule with `AlphaNode::with_typed_value` (the literal
+    -- goes through `FactValue::as_string`: an integral float prints without fraction and comes back as an integer — `typedNode`)
+    let node ← parseNode node
+    pure { name := i, ty := (← ty.toNat?), node := (if nl.endsWith "v" then typedNode node else node), prio := (← prio.toInt?),
+           noLoop := nl.startsWith "1", action := (← parseAction act) }
   | _ => none
 
 def parseRules : Nat → List String → Option (List Rule)
@@ -119,9 +131,24 @@ def parseOp (s : String) : Option Op :=
     | _ => none
   else none
 
-def parseCase (line : String) : Option (List Rule × List Op) :=
+def parseXOp (s : String) : Option XOp :=
+  if s = "D" then some .loadDeffacts
+  else if s = "W" then some .resetDeffacts
+  else if s.startsWith "N" then (s.drop 1).toString.toNat?.map .loadByName
+  else if s.startsWith "S" then (s.drop 1).toString.toNat?.map .strategy
+  else if s.startsWith "E" then
+    match (s.drop 1).toString.splitOn ":" with
+    | [ty, d] => do pure (.insertExplicit (← ty.toNat?) (← parseData d))
+    | _ => none
+  else if s.startsWith "T" then
+    match (s.drop 1).toString.splitOn ":" with
+    | [ty, d] => do pure (.insertTemplate (← ty.toNat?) (← parseData d))
+    | _ => none
+  else (parseOp s).map .base
+
+def parseCase (line : String) : Option (List Rule × List XOp) :=
   match tokens line with
-  | rs :: ops => do pure ((← parseRules 0 (rs.splitOn "/")), (← ops.mapM parseOp))
+  | rs :: ops => do pure ((← parseRules 0 (rs.splitOn "/")), (← ops.mapM parseXOp))
   | [] => none
 
 def showData (d : Data) : String :=
@@ -135,27 +162,31 @@ def showRes : ORes → String
   | .fired names log => "F" ++ showNats names ++ String.join (log.map (fun f => "~" ++ showFiring f))
   | .unit => "z"
 
-def showObs (op : Op) (o : Obs) : String :=
+def showObs (op : XOp) (o : XObs) : String :=
   let res := match op, o.res with
-    | .update _ _, .ok b => if b then "u1" else "u0"
-    | .retract _, .ok b => if b then "x1" else "x0"
-    | _, r => showRes r
+    | .base (.update _ _), .res (.ok b) => if b then "u1" else "u0"
+    | .base (.retract _), .res (.ok b) => if b then "x1" else "x0"
+    | _, .res r => showRes r
+    | _, .rejected => "t0"
+    | _, .strat k => s!"s{k}"
+    | _, .loaded ok hs => (if ok then "d1" else "d0") ++ showNats hs
   let v := o.view
   let contents := if v.contents.isEmpty then "-" else "+".intercalate (v.contents.map fun (h, ty, d) => s!"{h}:{ty}:{showData d}")
-  "/".intercalate ([res, showNats v.get] ++ v.byType.map showNats ++ [showNats v.allFacts, showNats v.allHandles, contents])
+  "/".intercalate ([res, showNats v.get] ++ v.byType.map showNats ++ [showNats v.allFacts, showNats v.allHandles, contents,
+    ".".intercalate (o.stats.map toString)])
 
 /-- at most one live fact per type after every call -/
-def singleLive (os : List Obs) : Bool := os.all (fun o => o.view.byType.all (fun l => l.length ≤ 1))
+def singleLive (os : List XObs) : Bool := os.all (fun o => o.view.byType.all (fun l => l.length ≤ 1))
 
 /-- an observation as an engine without recorder shows it -/
-def stripLog (o : Obs) : Obs :=
+def stripLog (o : XObs) : XObs :=
   match o.res with
-  | .fired names _ => { o with res := .fired names [] }
+  | .res (.fired names _) => { o with res := .res (.fired names []) }
   | _ => o
 
 /-- the loader part of the observation line: `G=` when the GRL-loaded engine shows, token for token, what the directly built
 engine shows without its recorder log -/
-def showLoader (ops : List Op) (os1 os2 : List Obs) : List String :=
+def showLoader (ops : List XOp) (os1 os2 : List XObs) : List String :=
   let t1 := (ops.zip (os1.map stripLog)).map fun (op, o) => showObs op o
   let t2 := (ops.zip (os2.map stripLog)).map fun (op, o) => showObs op o
   if t1 == t2 then ["G="] else "G" :: (if t2.isEmpty then ["-"] else t2)
@@ -163,12 +194,12 @@ def showLoader (ops : List Op) (os1 os2 : List Obs) : List String :=
 def modelLine (line : String) : String :=
   match parseCase line with
   | some (rules, ops) =>
-    let os := trace { rules := rules } ops
+    let os := xtrace { rules := rules } ops
     let d1 := singleLive os
     -- complete observations are compared on D1 histories only (props/c06.py `agree`): on the others the loader engine is not
     -- predicted (`G~`; saves the second run of the model on the long multi-fact histories) — the oracle is evaluated on it always
     let g := if !d1 then ["G~"]
-      else showLoader ops os (if rules.map loaderRule == rules then os else trace { rules := rules.map loaderRule } ops)
+      else showLoader ops os (if rules.map loaderRule == rules then os else xtrace { rules := rules.map loaderRule } ops)
     joinSp ((if d1 then "D1" else "D0") :: (if os.isEmpty then ["-"] else (ops.zip os).map fun (op, o) => showObs op o) ++ g)
   | none => "bad-case"
 
@@ -183,21 +214,25 @@ def parseContents (s : String) : Option (List (Nat × Nat × Data)) :=
       | [h, ty, d] => do pure ((← h.toNat?), (← ty.toNat?), (← parseData d))
       | _ => none)
 
-def parseObs (s : String) : Option Obs :=
+def parseObs (s : String) : Option XObs :=
   match s.splitOn "/" with
-  | [res, g, t0, t1, t2, a, h, c] => do
+  | [res, g, t0, t1, t2, a, h, c, st] => do
     let view : View := { get := (← parseNats? g), byType := [(← parseNats? t0), (← parseNats? t1), (← parseNats? t2)],
                          allFacts := (← parseNats? a), allHandles := (← parseNats? h), contents := (← parseContents c) }
-    let r ← (if res = "z" then some ORes.unit
-      else if res = "u1" || res = "x1" then some (.ok true)
-      else if res = "u0" || res = "x0" then some (.ok false)
-      else if res.startsWith "i" then (res.drop 1).toString.toNat?.map .handle
+    let r ← (if res = "z" then some (XORes.res .unit)
+      else if res = "u1" || res = "x1" then some (.res (.ok true))
+      else if res = "u0" || res = "x0" then some (.res (.ok false))
+      else if res = "t0" then some .rejected
+      else if res.startsWith "s" then (res.drop 1).toString.toNat?.map .strat
+      else if res.startsWith "d1" then (parseNats? (res.drop 2).toString).map (.loaded true)
+      else if res.startsWith "d0" then (parseNats? (res.drop 2).toString).map (.loaded false)
+      else if res.startsWith "i" then (res.drop 1).toString.toNat?.map (fun h => .res (.handle h))
       else if res.startsWith "F" then
         match (res.drop 1).toString.splitOn "~" with
-        | names :: log => do pure (.fired (← parseNats? names) (← log.mapM parseFiring))
+        | names :: log => do pure (.res (.fired (← parseNats? names) (← log.mapM parseFiring)))
         | [] => none
       else none)
-    pure { res := r, view := view }
+    pure { res := r, view := view, stats := (← (st.splitOn ".").mapM (·.toNat?)) }
   | _ => none
 
 def clauseOf (rules : List Rule) (r : Ref) (op : Op) (o : Obs) : String :=
@@ -223,12 +258,31 @@ def clauseOf (rules : List Rule) (r : Ref) (op : Op) (o : Obs) : String :=
       else "contents_after_fire"
   | _, _ => "shape"
 
-def firstBad (rules : List Rule) : Nat → Ref → List Op → List Obs → String
+/-- which clause of an extended step fails (`base` names the clause of a base step) -/
+def xclauseOf (base : List Rule → Ref → Op → Obs → String) (rules : List Rule) (r : Ref) (x : XOp) (o : XObs) : String :=
+  match x, o.res with
+  | .base op, .res r0 => base rules r op { res := r0, view := o.view }
+  | .insertExplicit ty d, .res r0 => "insert_explicit:" ++ base rules r (.insert ty d) { res := r0, view := o.view }
+  | .insertTemplate ty d, .res r0 =>
+    if templateOk ty d then "insert_with_template:" ++ base rules r (.insert ty d) { res := r0, view := o.view } else "template_not_checked"
+  | .insertTemplate ty d, .rejected => if templateOk ty d then "template_rejects_valid_fact" else "rejected_insert_changes_wm"
+  | .strategy k, .strat k' => if k != k' then "strategy_not_set" else "strategy_changes_wm"
+  | .loadDeffacts, .loaded true hs =>
+    match refInserts r loadAllOps hs with | none => "load_deffacts:handles" | some _ => "load_deffacts:wm_views_agree"
+  | .loadByName k, .loaded ok hs =>
+    if ok != (k == 0 && (loadNamedPrefix deffacts).2) then "load_deffacts_by_name:result" else
+    match refInserts r (if k == 0 then (loadNamedPrefix deffacts).1 else []) hs with
+    | none => "load_deffacts_by_name:handles" | some _ => "load_deffacts_by_name:wm_views_agree"
+  | .resetDeffacts, .loaded true hs =>
+    match refInserts {} loadAllOps hs with | none => "reset_with_deffacts:handles" | some _ => "reset_with_deffacts:wm_views_agree"
+  | _, _ => "shape"
+
+def firstBad (rules : List Rule) : Nat → Ref → List XOp → List XObs → String
   | _, _, [], [] => "orun"
   | i, r, op :: ops, o :: os =>
-    match ostep rules r op o with
-    | some r' => firstBad rules (i + 1) r' ops os
-    | none => s!"{clauseOf rules r op o}@{i}"
+    match oxstep ostep rules r op o with
+    | some r' => if !statsOk rules r' o.stats then s!"stats_agree@{i}" else firstBad rules (i + 1) r' ops os
+    | none => s!"{xclauseOf clauseOf rules r op o}@{i}"
   | i, _, _, _ => s!"length@{i}"
 
 /-! ### action write-back: clause `action_write_lost`, evaluated after `orun` passed — `C06.applySets`, `C06.writesOk`,
@@ -252,12 +306,12 @@ def clauseOfG (rules : List Rule) (r : Ref) (op : Op) (o : Obs) : String :=
   | .fire, _ => "shape"
   | _, _ => clauseOf rules r op o
 
-def firstBadG (rules : List Rule) : Nat → Ref → List Op → List Obs → String
+def firstBadG (rules : List Rule) : Nat → Ref → List XOp → List XObs → String
   | _, _, [], [] => "orunG"
   | i, r, op :: ops, o :: os =>
-    match ostepG rules r op o with
-    | some r' => firstBadG rules (i + 1) r' ops os
-    | none => s!"loader:{clauseOfG rules r op o}@{i}"
+    match oxstep ostepG rules r op o with
+    | some r' => if !statsOk rules r' o.stats then s!"loader:stats_agree@{i}" else firstBadG rules (i + 1) r' ops os
+    | none => s!"loader:{xclauseOf clauseOfG rules r op o}@{i}"
   | i, _, _, _ => s!"loader:length@{i}"
 
 /-- split the observation tokens at the loader marker: (first engine's tokens, marker, second engine's tokens) -/
@@ -267,15 +321,32 @@ def splitLoader : List String → List String × Option (String × List String)
     if t == "G" || t == "G=" || t.startsWith "G!" then ([], some (t, ts))
     else let r := splitLoader ts; (t :: r.1, r.2)
 
-def tagsOf (rules : List Rule) (ops : List Op) (os : List Obs) (d1 : Bool) : List String :=
+def nodeOps : Node → List Cmp
+  | .alpha _ _ op _ => [op]
+  | .and l r => nodeOps l ++ nodeOps r
+  | .or l r => nodeOps l ++ nodeOps r
+  | .not n => nodeOps n
+
+def tagsOf (rules : List Rule) (xops : List XOp) (xos : List XObs) (d1 : Bool) : List String :=
+  let ops := xops.filterMap (fun x => match x with | .base o => some o | _ => none)
+  let os := xos.filterMap XObs.toObs?
   let fired := os.foldl (fun n o => match o.res with | .fired names _ => n + names.length | _ => n) 0
   let fires := os.filter (fun o => match o.res with | .fired (_ :: _) _ => true | _ => false)
-  let maxLive := os.foldl (fun n o => max n o.view.allHandles.length) 0
+  let maxLive := xos.foldl (fun n o => max n o.view.allHandles.length) 0
+  let cmps := rules.flatMap (fun r => nodeOps r.node)
   (if d1 then ["single_live"] else ["multi_live"]) ++ (if quietRules rules then ["quiet_rules"] else ["acting_rules"])
     ++ (if fired > 0 then ["fired"] else ["nothing_fired"]) ++ (if fires.length ≥ 2 then ["fired_in_2_runs"] else [])
     ++ (if ops.any (fun o => match o with | .update _ _ => true | _ => false) then ["update"] else [])
     ++ (if ops.any (fun o => match o with | .retract _ => true | _ => false) then ["retract"] else [])
     ++ (if os.any (fun o => o.res == .ok false) then ["err_result"] else [])
+    ++ (if xops.any (fun x => match x with | .insertExplicit _ _ => true | _ => false) then ["insert_explicit"] else [])
+    ++ (if xos.any (fun o => o.res == .rejected) then ["template_rejected"] else [])
+    ++ (if (xops.zip xos).any (fun (x, o) => match x, o.res with | .insertTemplate _ _, .res _ => true | _, _ => false) then ["template_accepted"] else [])
+    ++ (if xops.any (fun x => match x with | .strategy _ => true | _ => false) then ["strategy_set"] else [])
+    ++ (if xops.any (fun x => match x with | .loadDeffacts => true | .loadByName _ => true | _ => false) then ["deffacts_loaded"] else [])
+    ++ (if xops.any (fun x => x == .resetDeffacts) then ["reset_with_deffacts"] else [])
+    ++ (if cmps.any (fun c => c == .contains || c == .startsWith || c == .endsWith) then ["string_operator"] else [])
+    ++ (if cmps.any (fun c => c == .isIn) then ["in_operator"] else [])
     ++ [s!"live_max_{maxLive}"]
     ++ (if fired > 0 && ops.any (fun o => match o with | .update _ _ => true | .retract _ => true | _ => false) then ["nontrivial"] else [])
 
@@ -291,8 +362,8 @@ def oracleLine (line : String) : String :=
         let obsToks := if obsToks == ["-"] then [] else obsToks
         match obsToks.mapM parseObs with
         | some os =>
-          if !orun rules {} ops os then s!"fail {firstBad rules 0 {} ops os}" else
-          if let some c := writeBackBad rules 0 {} ops os then s!"fail {c}" else
+          if !oxrun ostep rules {} ops os then s!"fail {firstBad rules 0 {} ops os}" else
+          if let some c := xwriteBackBad rules 0 {} ops os then s!"fail {c}" else
           -- the loader path: the same rules through GRL text and the real GrlReteLoader, in a second engine
           match loader with
           | none => "fail loader:missing"
@@ -303,8 +374,9 @@ def oracleLine (line : String) : String :=
             | none => "fail unparsable-observation"
             | some os2 =>
               let rules2 := rules.map loaderRule
-              if !orunG rules2 {} ops os2 then s!"fail {firstBadG rules2 0 {} ops os2}"
-              else if quietRules rules && rules2 == rules && !sameFired os os2 then "fail loader:fired_sets_differ"
+              if !oxrun ostepG rules2 {} ops os2 then s!"fail {firstBadG rules2 0 {} ops os2}"
+              else if quietRules rules && rules2 == rules && os.length == os2.length &&
+                  !sameFired (os.filterMap XObs.toObs?) (os2.filterMap XObs.toObs?) then "fail loader:fired_sets_differ"
               else joinSp ("ok" :: tagsOf rules ops os (dTok == "D1")
                 ++ (if rules2 == rules then [] else ["loader_integral_float"])
                 ++ (if mark == "G=" then ["loader_same_obs"] else ["loader_other_obs"]))
